@@ -19,7 +19,11 @@ LEVEL = "exploration"
 MOD = "mc.props.C18"
 
 DEN = 5e-324 * 3
-COMP_VALUES = [0.0, 1.0, -1.0, 2.0, -2.0, 3.0, -3.0, 1e-8, -1e-8, 1e8, -1e8, 1e-200, -1e-200, 1e200, -1e200, DEN, -DEN, 1e-310, -1e-310]
+FMAX = float(np.finfo(np.float64).max)
+# ... and the ends of the float64 range: the largest finite number, the first number of the top binade, the smallest
+# normal and the smallest subnormal
+COMP_VALUES = [0.0, 1.0, -1.0, 2.0, -2.0, 3.0, -3.0, 1e-8, -1e-8, 1e8, -1e8, 1e-200, -1e-200, 1e200, -1e200, DEN, -DEN, 1e-310, -1e-310,
+               FMAX, -FMAX, 2.0**1023, float(np.finfo(np.float64).tiny), 5e-324]
 TOL = 1e-12
 
 
@@ -38,7 +42,7 @@ def cases(thorough):
             if unit == "au" and not thorough:
                 continue
             yield {"kind": "normal", "n": list(c), "unit": unit}
-    small = [0.0, 1.0, -1.0, 2.0, 1e-8, -1e8, 1e-200, 1e200]
+    small = [0.0, 1.0, -1.0, 2.0, 1e-8, -1e8, 1e-200, 1e200, FMAX, 5e-324]
     for c in itertools.product(small, repeat=3):
         if c == (0.0, 0.0, 0.0):
             continue
